@@ -477,6 +477,7 @@ class Duration(timedelta):
             microseconds=self.microseconds,
             minutes=self.minutes,
             hours=self.hours,
+            weeks=self.weeks,
             years=self.years,
             months=self.months,
         )
